@@ -119,6 +119,16 @@ pub struct Se {}
 #[unit(Sg_Unit, "ug", NONE, 1, "SI-prefixed alias of scale one: the reference unit still comes first")]
 pub struct Sg {}
 
+// units whose scales lie closer together than the binary64 machine epsilon in ABSOLUTE terms (1e-18, 1e-17,
+// 1e-15) beside huge ones: a comparison of scales "within EPSILON" takes the small ones for aliases
+#[quantity]
+#[ref_unit(Sv_Ref, "v", NONE)]
+#[unit(Sv_Atto, "av", ATTO, 0.000000000000000001)]
+#[unit(Sv_Ten_Atto, "dav", 0.00000000000000001)]
+#[unit(Sv_Femto, "fv", FEMTO, 0.000000000000001)]
+#[unit(Sv_Exa, "Ev", EXA, 1000000000000000000.)]
+pub struct Sv {}
+
 // the two very large types live in their own file: the kernel-evaluated theorems over the synthetic
 // definitions (`Gen.Synth.items`) do not need them, the correspondence does
 mod big;
